@@ -94,12 +94,14 @@ func init() {
 	ev.Register(&ev.Check{
 		ID: "C12", Level: "exploration", Workers: 16, QuickSecs: 200, ThorSecs: 1500,
 		Rule: "the C04 encode suite (boundary values of ~250 types, by value and through a pointer, x ALL 512 encoder option sets, cyclic and deep values) and the C03 suite (full type grammar under ConfigStd) are enumerated in two processes (JIT back end, SONIC_ENCODER_USE_VM=1); outputs must be byte-identical or both errors (digest comparison case by case, mismatches regenerated in full). " +
+			"Suite hist: every two-step history (any operation of C09's alphabet incl. Pretouch with compile options and PretouchMany, then any observing operation) from reset caches - the interpreter has its own ahead-of-time compile walk. " +
 			"distinct_nontrivial = distinct observation digests of the reference configuration",
 		Assume: []string{"a 64-bit FNV digest collision could hide a difference"},
 		Run: func(c *ev.Ctx, r *ev.Report) {
 			if xchild(c, r) {
 				return
 			}
+			xcompare(c, r, "C12", "hist", c12cfgs, c12key)
 			xcompare(c, r, "C12", "enc", c12cfgs, c12key)
 			xcompare(c, r, "C12", "enc-types", c12cfgs, c12key)
 			r.Sample(map[string]string{"suite": "enc + enc-types", "configs": "jit | vm"})
